@@ -75,7 +75,7 @@ def cases(draw):
         disc_brokerid = draw(st.sampled_from(["disc.broker.com", "Brokerage.Example.COM", "4705", "dI.Sc"]))
         for i in range(n):
             kind = draw(st.sampled_from(["bank", "bank", "cc", "inv", "bp"]))
-            a = {"kind": kind, "acctid": draw(ACCT), "status": draw(st.sampled_from(["ACTIVE", "ACTIVE", "AVAIL", "PEND"])), "group": draw(st.integers(0, 3)) * 10 + {"bank": 0, "cc": 1, "inv": 2, "bp": 3}[kind]}
+            a = {"kind": kind, "acctid": draw(ACCT), "status": draw(st.sampled_from(["ACTIVE", "ACTIVE", "AVAIL", "PEND"])), "group": draw(st.integers(0, 3)) * 10 + {"bank": 0, "cc": 1, "inv": 2, "bp": 3}[kind], "caps": draw(st.integers(0, 7))}
             if kind in ("bank", "bp"):
                 a["bankid"] = disc_bankid
                 a["accttype"] = draw(st.sampled_from(["CHECKING", "SAVINGS", "MONEYMRKT", "CREDITLINE", "CD"]))
